@@ -124,10 +124,14 @@ type Decls struct {
 // WaDecls renders the declarations for the (numbered) typed leaves of exprs.
 // withGlobals / withConsts select which families are wanted (a constants-only
 // program needs no globals).
-func WaDecls(exprs []*Expr, withGlobals, withConsts bool) Decls { return decls(exprs, langWa, withGlobals, withConsts) }
+func WaDecls(exprs []*Expr, withGlobals, withConsts bool) Decls {
+	return decls(exprs, langWa, withGlobals, withConsts)
+}
 
 // GoDecls is WaDecls for the Go rendering.
-func GoDecls(exprs []*Expr, withGlobals, withConsts bool) Decls { return decls(exprs, langGo, withGlobals, withConsts) }
+func GoDecls(exprs []*Expr, withGlobals, withConsts bool) Decls {
+	return decls(exprs, langGo, withGlobals, withConsts)
+}
 
 func decls(exprs []*Expr, l lang, withGlobals, withConsts bool) Decls {
 	var d Decls
